@@ -385,6 +385,8 @@ impl C16 {
         seed_vs.extend(c.problem.constraints.iter().copied());
         // decisions that must not starve when the universe is large come first
         let n_add = t.below(5);
+        let use_timeout = t.chance(1, 3);
+        let timeout_pos = t.below(8);
         let use_serde = t.chance(1, 2);
         let use_max = t.below(3);
         if !u.vsets.is_empty() {
@@ -520,7 +522,18 @@ impl C16 {
         let mut provider = snapshot.provider();
         let mut added: Vec<(u32, Added)> = vec![];
         let pkgs_with_entry: Vec<usize> = captured_pkgs.iter().filter_map(|p| c.ix.name.get(p).copied()).collect();
-        for _ in 0..n_add {
+        // with_timeout (a builder taking self) may be called at any point between the adds; the
+        // deadline is far away, so it never fires
+        let timeout_at = if use_timeout { Some(timeout_pos % (n_add + 1)) } else { None };
+        let far = std::time::SystemTime::now() + std::time::Duration::from_secs(86_400);
+        for k in 0..=n_add {
+            if timeout_at == Some(k) {
+                provider = provider.with_timeout(far);
+                labels.push("with-timeout");
+            }
+            if k == n_add {
+                break;
+            }
             if pkgs_with_entry.is_empty() {
                 break;
             }
